@@ -184,7 +184,6 @@ func (m *TargetsDiscovery) translateTargets(targets map[string][]*targetgroup.Gr
 			ts, err := targetsFromGroup(tr, cfg)
 			if err != nil {
 				m.log.Error("create target for job", cfg.JobName, err.Error())
-				continue
 			}
 
 			for _, tar := range ts {
